@@ -270,31 +270,43 @@ type ExploreStats struct {
 // deterministic given the prefix.  visit is called for every complete
 // execution; it returns false to stop the exploration.
 func Explore(bound int, run func(prefix []int) *Sched, visit func(*Sched) bool) ExploreStats {
+	return ExploreSharded(bound, 0, 1, run, visit)
+}
+
+// ExploreSharded is Explore split over `of` cooperating processes.  The executions at depth 0 and 1 of the search
+// tree (the root and the alternatives branching off it) are run by every process, because their traces are needed
+// to enumerate the next level, but each is visited (judged, counted) by one owner only; every node at depth 2 is
+// owned, together with its whole subtree, by one process (round robin over a deterministic numbering).
+func ExploreSharded(bound, shard, of int, run func(prefix []int) *Sched, visit func(*Sched) bool) ExploreStats {
+	const splitDepth = 2
 	var st ExploreStats
-	var rec func(prefix []int) bool
-	rec = func(prefix []int) bool {
+	var counters [splitDepth + 1]int
+	var rec func(prefix []int, depth int, mine bool) bool
+	rec = func(prefix []int, depth int, mine bool) bool {
 		x := run(prefix)
-		st.Executions++
-		st.Points += int64(len(x.Trace))
-		if len(x.Trace) > st.MaxPoints {
-			st.MaxPoints = len(x.Trace)
-		}
 		if x.Diverged != "" {
 			st.Diverged = append(st.Diverged, x.Diverged)
 			return false
 		}
-		if x.Deadlock {
-			st.Deadlocks++
-		}
-		if x.Horizon {
-			st.Horizons++
-		}
-		if p := x.PreemptionsBefore(len(x.Trace)); p > st.MaxPreempt {
-			st.MaxPreempt = p
-		}
-		if !visit(x) {
-			st.Stopped = true
-			return false
+		if mine {
+			st.Executions++
+			st.Points += int64(len(x.Trace))
+			if len(x.Trace) > st.MaxPoints {
+				st.MaxPoints = len(x.Trace)
+			}
+			if x.Deadlock {
+				st.Deadlocks++
+			}
+			if x.Horizon {
+				st.Horizons++
+			}
+			if p := x.PreemptionsBefore(len(x.Trace)); p > st.MaxPreempt {
+				st.MaxPreempt = p
+			}
+			if !visit(x) {
+				st.Stopped = true
+				return false
+			}
 		}
 		for i := len(prefix); i < len(x.Trace); i++ {
 			p := x.Trace[i]
@@ -310,13 +322,29 @@ func Explore(bound int, run func(prefix []int) *Sched, visit func(*Sched) bool) 
 			}
 			for alt := 1; alt < len(p.Enabled); alt++ {
 				np := append(append([]int{}, x.Choices[:i]...), alt)
-				if !rec(np) {
-					return false
+				cd := depth + 1
+				switch {
+				case of <= 1 || cd > splitDepth:
+					if !rec(np, cd, true) {
+						return false
+					}
+				case cd < splitDepth: // structural node: everyone runs it, one owner visits it
+					counters[cd]++
+					if !rec(np, cd, counters[cd]%of == shard) {
+						return false
+					}
+				default: // cd == splitDepth: this node and its subtree belong to one process
+					counters[cd]++
+					if counters[cd]%of == shard {
+						if !rec(np, cd, true) {
+							return false
+						}
+					}
 				}
 			}
 		}
 		return true
 	}
-	rec(nil)
+	rec(nil, 0, shard == 0 || of <= 1)
 	return st
 }
